@@ -7,7 +7,9 @@
     - for every live connection [c] (Outgoing [o], link [o_link o]) and every non-shared request
       [rq] it holds, if the key (link, filter, log) of the request has events at all, the offset
       of the request's cursor is EXACTLY where the last event of that key continues ([nxt]), and
-      if that cursor is stale its offset lies at or before the log's base ([CurAt]).
+      if that cursor is stale its offset lies at or before the log's base ([CurAt]) — unless that
+      last event is the resume marker [KRes], after which nothing is known until the first sweep;
+      the key of such a request always has events, the first one [KSub] or [KRes].
     The cursor therefore only moves by sweeps.  Uniqueness of the request per (connection,
     filter) is not part of [DI]: it comes from request location ([DevE], ExactLoc*.v). *)
 From Rumqtt Require Import Log.Spec Log.Proofs Router.ExactLog.
@@ -22,9 +24,10 @@ From Coq Require Import List ZifyBool ZifyN ZifyNat.
 Import ListNotations.
 
 Definition CurAt (dl : datalog) (rq : drequest) (a : kev) : Prop :=
-  snd (dr_cursor rq) = nxt a /\
-  forall d, nget dl (dr_idx rq) = Some d -> stale (d_log d) (dr_cursor rq) = true ->
-            snd (dr_cursor rq) <= base_of (d_log d).
+  a = KRes \/
+  (snd (dr_cursor rq) = nxt a /\
+   forall d, nget dl (dr_idx rq) = Some d -> stale (d_log d) (dr_cursor rq) = true ->
+             snd (dr_cursor rq) <= base_of (d_log d)).
 
 Definition key_of (o : outgoing) (rq : drequest) : dkey := (o_link o, dr_filter rq, dr_idx rq).
 
@@ -34,14 +37,21 @@ Record DI (st : rstate) (e : list (N * drequest)) (tr : list dev) : Prop := {
            exists d, nget (r_datalog st) i = Some d /\ nxt a <= end_of (d_log d);
   di_chain : forall K, kchain (ktrace K tr);
   di_cur : forall c o rq a, slab_get (r_obufs st) c = Some o -> HeldE st e c rq -> dr_group rq = None ->
-           last_opt (ktrace (key_of o rq) tr) = Some a -> CurAt (r_datalog st) rq a
+           last_opt (ktrace (key_of o rq) tr) = Some a -> CurAt (r_datalog st) rq a;
+  (* the events of a link that a live connection owns carry that connection's key *)
+  di_id : forall id k f i a c o, In (id, (k, f, i), a) tr -> slab_get (r_obufs st) c = Some o -> o_link o = k -> id = c;
+  (* the key of every non-shared request a live connection holds has a history: it starts with the
+     SUBSCRIBE marker, or with the resume marker of the connection *)
+  di_ne : forall c o rq, slab_get (r_obufs st) c = Some o -> HeldE st e c rq -> dr_group rq = None ->
+          ktrace (key_of o rq) tr <> [];
+  di_head : forall K a l, ktrace K tr = a :: l -> a = KRes \/ exists e0, a = KSub e0
 }.
 
 (* ------------------------------------------------------------------ monotonicity in the logs *)
 Lemma curat_mono dl dl' rq a :
   LogsInv dl -> dl_le dl dl' -> CurOk dl (dr_idx rq) (dr_cursor rq) -> CurAt dl rq a -> CurAt dl' rq a.
 Proof.
-  intros LI [Hle _] (d & Hd & Hiss & _) [H1 H2]. split; [exact H1|].
+  intros LI [Hle _] (d & Hd & Hiss & _) [Hres | [H1 H2]]; [now left|]. right. split; [exact H1|].
   intros d' Hd' Hst. destruct (Hle _ _ Hd) as (d2 & Hd2 & _ & L). rewrite Hd' in Hd2. inversion Hd2; subst d2.
   destruct (li_wf _ LI _ _ Hd) as [all W]. destruct (L all W) as (xs & _ & _ & Hb & Hs).
   destruct (stale (d_log d) (dr_cursor rq)) eqn:E.
@@ -72,7 +82,7 @@ Lemma di_frame st st' e e' tr :
   lenN (r_links st) <= lenN (r_links st') ->
   DI st e tr -> DI st' e' tr.
 Proof.
-  intros HI HL HS HO Hle Hlen [D1 D2 D3 D4]. pose proof HI as [LI _]. constructor.
+  intros HI HL HS HO Hle Hlen [D1 D2 D3 D4 D5 D6 D7]. pose proof HI as [LI _]. constructor.
   - intros id k f i a Hin. specialize (D1 _ _ _ _ _ Hin). lia.
   - intros id k f i a Hin. destruct (D2 _ _ _ _ _ Hin) as (d & Hd & He).
     destruct (proj1 Hle _ _ Hd) as (d' & Hd' & _ & L). exists d'. split; [exact Hd'|].
@@ -82,14 +92,21 @@ Proof.
     apply HS in Hh. assert (Hk : key_of o' rq = key_of o rq) by (unfold key_of; now rewrite Hs).
     rewrite Hk in Hl. eapply curat_mono; [exact LI|exact Hle| |eapply D4; eassumption].
     apply (helde_rqok _ _ _ _ HI HL Hh).
+  - intros id k f i a c o' Hin Ho' Hk. destruct (HO _ _ Ho') as (o & Ho & Hs). apply ostep_link in Hs as [Hs _].
+    eapply D5; [exact Hin|exact Ho|congruence].
+  - intros c o' rq Ho' Hh Hg. destruct (HO _ _ Ho') as (o & Ho & Hs). apply ostep_link in Hs as [Hs _].
+    apply HS in Hh. assert (Hk : key_of o' rq = key_of o rq) by (unfold key_of; now rewrite Hs).
+    rewrite Hk. eapply D6; eassumption.
+  - exact D7.
 Qed.
 
 Lemma di_frame_same st st' e e' tr :
   hsub st st' e e' -> r_obufs st' = r_obufs st -> r_datalog st' = r_datalog st -> r_links st' = r_links st ->
   DI st e tr -> DI st' e' tr.
 Proof.
-  intros HS EO ED EL [D1 D2 D3 D4]. constructor; rewrite ?EL, ?ED; try assumption.
-  intros c o rq a Ho Hh Hg Hl. rewrite EO in Ho. apply HS in Hh. eapply D4; eassumption.
+  intros HS EO ED EL [D1 D2 D3 D4 D5 D6 D7]. constructor; rewrite ?EL, ?ED, ?EO; try assumption.
+  - intros c o rq a Ho Hh Hg Hl. apply HS in Hh. eapply D4; eassumption.
+  - intros c o rq Ho Hh Hg. apply HS in Hh. eapply D6; eassumption.
 Qed.
 
 Lemma localsok_mono dl dl' e : LogsInv dl -> dl_le dl dl' -> LocalsOk dl e -> LocalsOk dl' e.
@@ -140,6 +157,12 @@ Proof. intros H. rewrite ktrace_app, ktrace_cons_other, ktrace_nil by exact H. a
 Lemma dkey_dec (a b : dkey) : {a = b} + {a <> b}.
 Proof. destruct (dkey_eqb a b) eqn:E; [left; now apply dkey_eqb_true|right; intros ->; now rewrite dkey_eqb_refl in E]. Qed.
 
+Lemma ktrace_app_ne K tr x : ktrace K tr <> [] -> ktrace K (tr ++ x) <> [].
+Proof. intros H E. rewrite ktrace_app in E. apply app_eq_nil in E as [E _]. contradiction. Qed.
+
+Lemma head_app {X} (l r : list X) a t : l <> [] -> l ++ r = a :: t -> exists t', l = a :: t'.
+Proof. destruct l as [|x l]; [contradiction|]. intros _ E. inversion E; subst. eauto. Qed.
+
 (* ------------------------------------------------------------------ SUBSCRIBE: the new request *)
 Lemma subs_of_some st id c : slab_get (r_conns st) id = Some c -> subs_of st id = Some (c_subs c).
 Proof. intros H. unfold subs_of. now rewrite H. Qed.
@@ -176,12 +199,14 @@ Proof.
   { assert (Hbase : DI st3 [] tr) by (apply (di_frame_same st2 st3 [] [] tr); [apply hsub_view; reflexivity|reflexivity|reflexivity|reflexivity|exact HDI2]).
     assert (Hnone : forall ev, ev = [] ->
               (dr_group rq = None -> slab_get (r_obufs st) id = None) -> DI st3 [(id, rq)] (tr ++ ev)).
-    { intros ev -> Hno. rewrite app_nil_r. destruct Hbase as [D1 D2 D3 D4]. constructor; try assumption.
-      intros c o r a Ho [Hh | [E | []]] Hg Hl; [eapply D4; eauto; now left|].
-      inversion E; subst c r. specialize (Hno Hg). change (r_obufs st3) with (r_obufs st) in Ho. congruence. }
+    { intros ev -> Hno. rewrite app_nil_r. destruct Hbase as [D1 D2 D3 D4 D5 D6 D7]. constructor; try assumption.
+      - intros c o r a Ho [Hh | [E | []]] Hg Hl; [eapply D4; eauto; now left|].
+        inversion E; subst c r. specialize (Hno Hg). change (r_obufs st3) with (r_obufs st) in Ho. congruence.
+      - intros c o r Ho [Hh | [E | []]] Hg; [eapply D6; eauto; now left|].
+        inversion E; subst c r. specialize (Hno Hg). change (r_obufs st3) with (r_obufs st) in Ho. congruence. }
     destruct grp as [g|]; [apply Hnone; [reflexivity|discriminate]|].
     destruct (slab_get (r_obufs st) id) as [o|] eqn:Ho; [|apply Hnone; auto].
-    set (K := (o_link o, path, fidx)). destruct Hbase as [D1 D2 D3 D4].
+    set (K := (o_link o, path, fidx)). destruct Hbase as [D1 D2 D3 D4 D5 D6 D7].
     assert (Hnew : forall c o' r, slab_get (r_obufs st) c = Some o' -> Held st c r -> dr_group r = None ->
                                   key_of o' r = K -> False).
     { intros c o' r Ho' Hh Hg Hk. unfold key_of, K in Hk. inversion Hk as [[Hl Hf Hi]].
@@ -195,7 +220,8 @@ Proof.
     - intros id0 k f i a Hin. apply in_app_or in Hin as [Hin | [E | []]]; [eapply D2; eassumption|].
       inversion E; subst. exists d. split; [exact Hd|]. cbn [nxt]. lia.
     - intros K'. destruct (dkey_dec K' K) as [-> | Hne].
-      + rewrite ktrace_snoc_same. apply kchain_snoc. split; [apply D3|]. intros a Ha. cbn [ok_next].
+      + rewrite ktrace_snoc_same. apply kchain_snoc. split; [apply D3|]. intros a Ha.
+        assert (Hge : nxt a <= snd cu); [|destruct a; cbn [ok_next nxt] in *; first [exact Hge | exact I]].
         assert (Hin : In a (ktrace K tr)).
         { clear -Ha. induction (ktrace K tr) as [|x l IH]; [discriminate|]. destruct l; [inversion Ha; now left|].
           right. apply IH. exact Ha. }
@@ -207,11 +233,23 @@ Proof.
       + destruct Hh as [Hh | [E | []]].
         * exfalso. eapply Hnew; eassumption.
         * inversion E; subst c r. rewrite Ek, ktrace_snoc_same, last_opt_snoc in Hl. inversion Hl; subst a.
-          split; [reflexivity|]. cbn [rq dr_idx dr_cursor]. intros d0 Hd0 Hs0.
+          right. split; [reflexivity|]. cbn [rq dr_idx dr_cursor]. intros d0 Hd0 Hs0.
           change (r_datalog st3) with (r_datalog st) in Hd0. rewrite Hd in Hd0. inversion Hd0; subst d0. congruence.
       + rewrite ktrace_snoc_other in Hl by exact Hne.
         destruct Hh as [Hh | [E | []]]; [eapply D4; eauto; now left|].
-        inversion E; subst c r. rewrite Ho in Ho'. inversion Ho'; subst o'. exfalso. apply Hne. reflexivity. }
+        inversion E; subst c r. rewrite Ho in Ho'. inversion Ho'; subst o'. exfalso. apply Hne. reflexivity.
+    - intros id0 k f i a c o' Hin Ho' Hk. change (r_obufs st3) with (r_obufs st) in Ho'.
+      apply in_app_or in Hin as [Hin | [E | []]]; [eapply D5; eassumption|].
+      unfold K in E. inversion E; subst. apply (proj2 HL _ _ _ _ Ho Ho'). assumption.
+    - intros c o' r Ho' Hh Hg. change (r_obufs st3) with (r_obufs st) in Ho'.
+      destruct Hh as [Hh | [E | []]]; [apply ktrace_app_ne; eapply D6; eauto; now left|].
+      inversion E; subst c r. rewrite Ho in Ho'. inversion Ho'; subst o'.
+      change (key_of o rq) with K. rewrite ktrace_snoc_same. intros X. apply app_eq_nil in X as [_ X]. discriminate.
+    - intros K' a l E. destruct (dkey_dec K' K) as [-> | Hne].
+      + rewrite ktrace_snoc_same in E. destruct (ktrace K tr) as [|x t] eqn:Ek.
+        * cbn [app] in E. inversion E; subst. right. eauto.
+        * cbn [app] in E. inversion E; subst. eapply D7; exact Ek.
+      + rewrite ktrace_snoc_other in E by exact Hne. eapply D7; exact E. }
   (* the request goes from the locals into the tracker *)
   assert (V3 : r_datalog st3 = r_datalog st /\ r_obufs st3 = r_obufs st /\ r_links st3 = r_links st) by (repeat split).
   pose proof (track_keep _ _ _ _ H4) as K4. pose proof (reschedule_keep _ _ _ _ H5) as K5.
